@@ -29,8 +29,9 @@
     The eventual outcome of each future is the function `ok : Nat → Bool` (result value of future `f` is `f` itself).
   * `done` is ghost state: the futures some `asyncio.wait` has returned so far.  Nothing else in the model reads it
     except `backup.done()`.
-  * `Variant` selects the code as it is (`current`: facts regenerated from the source) or the behaviour before the two
-    `fix:` commits, so that the historical witnesses stay checkable.
+  * `Variant` selects the code as it is (`generated`: facts regenerated from the source) or the behaviour before the
+    `fix:` commits (start_times on refill, superseded twins, empty first batch), so that the historical witnesses stay
+    checkable.
   * `backup.cancel()` is not modelled: a future is cancelled only after it has been removed from `pending` and from
     `backups`, and the model never touches such a future again (it can reappear only in the same `finished` set, where it
     is already done and `cancel()` is a no-op).
@@ -62,12 +63,15 @@ structure Variant where
   skipSuperseded : Bool
   /-- the backup launch is guarded by `task not in backups` -/
   guardNotInBackups : Bool
+  /-- the first batch is taken with `next(input_batches, ())`; `false` = `next(input_batches)` (third fix) -/
+  emptyFirstBatchOk : Bool
 deriving DecidableEq, Repr
 
-def Variant.fixed : Variant := ⟨true, true, true⟩
+def Variant.fixed : Variant := ⟨true, true, true, true⟩
 /-- what the extractor found in the tree under test -/
 def Variant.generated : Variant :=
-  ⟨GeneratedC08.refillUsesUpdate, GeneratedC08.skipsSuperseded, GeneratedC08.checksNotInBackups⟩
+  ⟨GeneratedC08.refillUsesUpdate, GeneratedC08.skipsSuperseded, GeneratedC08.checksNotInBackups,
+   GeneratedC08.emptyFirstBatchOk⟩
 
 structure Cfg where
   useBackups : Bool
@@ -151,7 +155,11 @@ def init (cfg : Cfg) (n : Nat) (t0 : Int) : Except Outcome St :=
   | some 0 => .error (.crash "ValueError: n must be at least one")
   | some (bs + 1) =>
     match batched (bs + 1) (List.range n) with
-    | [] => .error (.crash "StopIteration")     -- `next(input_batches)` on an empty input
+    | [] =>
+      -- empty input: `next(input_batches, ())` gives no inputs (no futures, the loop is not entered);
+      -- `next(input_batches)` raised StopIteration inside the async generator
+      if cfg.variant.emptyFirstBatchOk then .ok (submitBatch t0 St.empty [])
+      else .error (.crash "StopIteration")
     | b :: rest => .ok (submitBatch t0 { St.empty with batches := rest } b)
 
 /-! ### one `asyncio.wait` round -/
@@ -348,7 +356,8 @@ def retrying (succ : Nat → Bool) : Nat → Nat → Bool × Nat
   | budget + 1, k => if succ k then (true, k) else retrying succ budget (k + 1)
 
 /-- what one submitted future does with `retries`: `Retrying(reraise=True, stop=stop_after_attempt(retries + extra))`
-when `retries != 0`, the bare function otherwise. -/
+when `retries != 0`, the bare function otherwise.  Threads: `threads_create_futures_func`; processes: the same policy inside
+the worker (`unpickle_and_call_with_retries`) — `Properties/C08.lean` checks that the regenerated facts of both agree. -/
 def callWithRetries (retries : Nat) (succ : Nat → Bool) : Bool × Nat :=
   if retries = 0 && GeneratedC08.retriesZeroSkipsWrapper then (succ 1, 1)
   else retrying succ (retries + GeneratedC08.retryExtraAttempts - 1) 1
